@@ -72,6 +72,12 @@ func c09Configs() map[string]map[string]string {
 		"Taskfile.yml": tf("", "  n1:\n    taskfile: ./inc.yml\n    vars: {G: first}\n  n2:\n    taskfile: ./inc.yml\n    vars: {G: second}\n    internal: true\n", "show"),
 		"inc.yml":      tf("  H: inc\n", "", "t", "u"),
 	}
+	m["same-file-twice-dirs-nested-include-without-dir"] = map[string]string{
+		"Taskfile.yml": tf("", "  n1:\n    taskfile: ./mid.yml\n    dir: ./d1\n  n2:\n    taskfile: ./mid.yml\n    dir: ./d2\n", "show"),
+		"mid.yml":      tf("  G: mid\n", "  lib:\n    taskfile: ./lib.yml\n", "t"),
+		"lib.yml":      tf("  H: lib\n", "", "leaf"),
+		"d1/.keep":     "", "d2/.keep": "",
+	}
 	m["nested-siblings"] = map[string]string{
 		"Taskfile.yml": tf("", "  mid: ./mid.yml\n", "show"),
 		"mid.yml":      tf("  G: mid\n", "  x: ./x.yml\n  y: ./y.yml\n", "t"),
